@@ -572,6 +572,7 @@ pub fn zoo() -> Vec<Entry> {
 			TransparentCompact, Box<TransparentCompact>, [TransparentCompact; 3], Rc<TransparentEncodedAs>, [TransparentEncodedAs; 2],
 			Box<SingleCompact>, [WithCompact; 2], Arc<Arc<Arc<u32>>>, Rc<Rc<u8>>, Vec<Arc<Vec<Arc<u16>>>>, Option<Arc<ArcChain>>, Box<DataFixed>, [Data; 2], Arc<Nested>, Box<TupEnum>,
 			Amount, Balance, Vec<Amount>, [Balance; 2],
+			Compact<CWrap8>, Compact<CWrap16>, Compact<CWrap64>, Compact<CWrap128>, (Compact<CWrap16>, [Compact<CWrap8>; 3], Option<Compact<CWrap64>>),
 			Marker, MarkerPair, [Marker; 4], Box<[Marker; 4]>, ([Marker; 2], u16), Vec<Marker>, [[Marker; 2]; 2], [MarkerPair; 3],
 			Rc<[Marker; 3]>, Option<[Marker; 1]>, (Arc<[MarkerPair; 2]>, Vec<u8>), Vec<[Marker; 2]>,
 			(Box<UnitS>, Vec<Vec<u8>>), [Box<AllSkip>; 3]);
@@ -599,6 +600,7 @@ pub fn zoo() -> Vec<Entry> {
 				Discr, DataFixed, TransparentArr, TransparentZst, CWrap, Option<Simple>, Box<TransparentArr>, [TransparentZst; 2],
 				TransparentCompact, Box<TransparentCompact>, [TransparentCompact; 3], [TransparentEncodedAs; 2], Compact<CWrap>,
 				Amount, Balance, [Balance; 2],
+				Compact<CWrap8>, Compact<CWrap16>, Compact<CWrap64>, Compact<CWrap128>, (Compact<CWrap16>, [Compact<CWrap8>; 3], Option<Compact<CWrap64>>),
 				Marker, MarkerPair, [Marker; 4], Box<[Marker; 4]>, ([Marker; 2], u16), [[Marker; 2]; 2], [MarkerPair; 3], Option<[Marker; 1]>,
 				(Simple, WithCompact, Discr));
 		}
